@@ -43,7 +43,7 @@ ASSUMPTIONS = [
     "how long a call that has to wait is delayed is unspecified beyond the window bound and quiescence",
     "arrival order of same-instant callers is the order in which the harness entered the wrapper",
 ]
-MINIMUMS = {"monitor:window": 3000, "bursts_over_limit": 1000, "calls_that_waited": 1000, "monitor:no-needless-delay": 3000, "histories_over_two_event_loops": 300, "histories_with_a_call_time_facade": 100}
+MINIMUMS = {"monitor:window": 3000, "bursts_over_limit": 1000, "calls_that_waited": 1000, "monitor:no-needless-delay": 3000, "histories_over_two_event_loops": 300, "histories_with_a_call_time_facade": 100, "histories_with_synchronous_work": 300}
 JOBS = {"quick": 4, "thorough": 16}
 LEVEL_TEXT = (
     "Every arrival pattern of up to 5 calls with gaps from {0, 1/4, 1/2, 1, 5/4, 2} periods is run for limits 1-4 (period as float and as timedelta - sub-second, a day, 36 hours, a week) in exact "
@@ -67,6 +67,9 @@ def run_case(R: Recorder, case: dict[str, Any], verbose: bool = False) -> None:
     n = len(gaps)
     durs = case.get("durs") or [0] * n
     fails = case.get("fails") or [False] * n
+    busy = case.get("busy") or [0] * n
+    if any(busy):
+        R.count("histories_with_synchronous_work")
     cancel = case.get("cancel")  # (call index, quarter periods after its arrival) or None
     scoped = case.get("scoped", False)
     q = period / 4
@@ -83,6 +86,9 @@ def run_case(R: Recorder, case: dict[str, Any], verbose: bool = False) -> None:
         argsok.append(tag == f"t{i}")
         if durs[i]:
             await asyncio.sleep(durs[i] * q)
+        if busy[i]:
+            # synchronous (CPU-bound) work: time passes while the loop cannot run - timers that fall due meanwhile are served late
+            clock.advance(busy[i] * q)
         if fails[i]:
             produced[i] = Boom(i)
             raise produced[i]
@@ -204,7 +210,10 @@ def run_case(R: Recorder, case: dict[str, Any], verbose: bool = False) -> None:
             break
     if waited:
         R.count("calls_that_waited", waited)
-    R.monitor("no-needless-delay", needless is None, where={**where0, "kind": "delayed-with-room"}, detail=f"call {needless} arrived with room in the window and nobody ahead but started later; starts={starts} arrivals={arrivals}", case=case)
+    if any(busy):
+        # with synchronous work in the histories a call can be held up by the blocked loop itself: promptness is not judged
+        needless = None
+    R.monitor("no-needless-delay", needless is None if not any(busy) else None, where={**where0, "kind": "delayed-with-room"}, detail=f"call {needless} arrived with room in the window and nobody ahead but started later; starts={starts} arrivals={arrivals}", case=case)
     # ---- outcome --------------------------------------------------------------------------------------
     bad = None
     for i in range(n):
@@ -244,6 +253,13 @@ def exhaustive(tier: str):  # noqa: ANN201
         for n in (2, 3, 4):
             for gaps in itertools.product(GAPS[:4], repeat=n - 1):
                 yield {"limit": limit, "period": 1.0, "pform": "float", "gaps": [0, *gaps], "factory": True}
+    # a call works synchronously across the instant at which a waiting call's slot becomes free: the waiter begins late, and it is that
+    # actual begin which counts for the calls after it
+    for limit in (1, 2):
+        for n in (3, 4):
+            for gaps in itertools.product((0, 2, 4, 8), repeat=n - 1):
+                for b0 in (3, 4, 6):
+                    yield {"limit": limit, "period": 1.0, "pform": "float", "gaps": [0, *gaps], "durs": [3, *[0] * (n - 1)], "busy": [b0, *[0] * (n - 1)]}
     # one wrapper used from two consecutive event loops (e.g. two asyncio.run calls): the window does not care about loops
     for limit in (1, 2, 3):
         for n in range(2, 5):
@@ -264,6 +280,8 @@ def random_case(rng: random.Random) -> dict[str, Any]:
         case["cancel"] = [rng.randrange(n), rng.choice([0, 1, 2, 3, 5])]
     if rng.random() < 0.15:
         case["factory"] = True
+    if rng.random() < 0.2:
+        case["busy"] = [rng.choice([0, 0, 2, 4, 5]) for _ in range(n)]
     if rng.random() < 0.2:
         case["split"] = rng.randint(1, min(limit, n - 1))
         case["scoped"] = False
